@@ -159,9 +159,6 @@ def run(ctx):
     calls_ls = [i for i in sl.calls("loom_sort")]
     ctx.need(len(calls_ls) == 1, "sort_lpt: %d calls of loom_sort" % len(calls_ls))
     blk = sl.where_up(calls_ls[0])[0]
-    fwd = sl.reachable_blocks(start=blk) - {blk} if blk in sl.succs(blk) else sl.reachable_blocks(start=blk)
-    loop = {x for x in sl.reachable_blocks(start=blk) if blk in sl.reachable_blocks(start=x) and x != blk
-            and any(blk in sl.reachable_blocks(start=y) for y in sl.succs(x))}
     in_loop = blk in {y for x in sl.reachable_blocks(start=blk) for y in sl.succs(x)}
     ctx.need(in_loop, "sort_lpt: loom_sort is not called inside a loop over the looms")
     rest = {x for x in sl.blocks if x != blk and x in sl.reachable_blocks(start=blk) and blk in sl.reachable_blocks(start=x)}
